@@ -3,7 +3,7 @@
     and the version directory that does not exist yet.  Purge touches no OTHER object.  A
     refused commit of a new object stays inside the staging area. *)
 From Coq Require Import List Arith PeanoNat NArith Ascii Bool Lia.
-From Rocfl Require Import Base.Bytes Model.FsOps Generated.Consts Model.Footprint Model.KnownC12
+From Rocfl Require Import Base.Bytes Model.FsOps Generated.Consts Model.Footprint
   Proofs.FootprintFacts Proofs.FootprintPaths Proofs.FootprintGuard.
 Import ListNotations.
 Open Scope N_scope.
@@ -153,11 +153,12 @@ Qed.
 
 (** * the C03 core lemma *)
 Lemma allowed_respects_objects : forall c s o f m p,
-  env_ok c s -> hex_ok (o_hex o) = true -> c12_mv_source_in_repo c o = false ->
+  env_ok c s -> hex_ok (o_hex o) = true -> (o_kind o = KMvExt -> o_csrcs o = o_srcs o) ->
   o_kind o <> KPurge -> (o_kind o = KInit -> p_objs s = []) ->
   allowed c s o f = true -> In m (p_objs s) -> In p (targets f) -> touch_ok o m p.
 Proof.
-  intros c s o f m p [CO IR NN SP SS VW] HX KC NP NI A Hin Hp. unfold allowed in A.
+  intros c s o f m p [CO IR NN SP SS VW] HX LX NP NI A Hin Hp.
+  pose proof (allowed_runs_or_infra _ _ _ _ A) as RI. apply allowed_flat_of in A. unfold allowed_flat in A.
   repeat (apply orb_true_iff in A as [A|A]).
   - apply andb_true_iff in A as [_ A]. apply touch_ok_outside. eapply stage_target_not_obj; [exact SP | exact Hin|].
     eapply infra_targets; eassumption.
@@ -167,7 +168,11 @@ Proof.
     eapply anc_targets; eassumption.
   - apply andb_true_iff in A as [A _]. apply andb_true_iff in A as [_ A]. apply touch_ok_outside.
     eapply stage_target_not_obj; [exact SP | exact Hin|]. eapply body_targets; eassumption.
-  - destruct (o_kind o) eqn:K; try discriminate. unfold c12_mv_source_in_repo in KC. rewrite K in KC.
+  - destruct (o_kind o) eqn:K; try discriminate.
+    assert (KC : existsb (src_in_repo c) (o_srcs o) = false).
+    { destruct RI as [RI|RI].
+      - unfold stage_infra, mv_sources in *. destruct f; discriminate.
+      - unfold op_runs in RI. rewrite K in RI. apply negb_true_iff in RI. unfold mv_refused in RI. rewrite (LX eq_refl) in RI. exact RI. }
     apply touch_ok_outside. unfold mv_sources in A.
     destruct f as [q|q|q|a d|q|q|k q]; try discriminate; cbn in Hp.
     + apply andb_true_iff in A as [A1 A2]. destruct Hp as [E|[E|[]]]; subst p.
@@ -235,7 +240,7 @@ Lemma purge_respects_others : forall c s o f m p,
   env_ok c s -> hex_ok (o_hex o) = true -> o_kind o = KPurge ->
   allowed c s o f = true -> In m (p_objs s) -> m_root m <> N_o c o -> In p (targets f) -> under (m_root m) p = false.
 Proof.
-  intros c s o f m p [CO IR NN SP SS VW] HX K A Hin NE Hp. unfold allowed in A. rewrite K in A. cbn [uses_staging takes_lock andb orb] in A.
+  intros c s o f m p [CO IR NN SP SS VW] HX K A Hin NE Hp. apply allowed_flat_of in A. unfold allowed_flat in A. rewrite K in A. cbn [uses_staging takes_lock andb orb] in A.
   repeat (apply orb_true_iff in A as [A|A]); try discriminate.
   - eapply stage_target_not_obj; [exact SP | exact Hin|]. eapply infra_targets; eassumption.
   - eapply stage_target_not_obj; [exact SP | exact Hin|]. eapply anc_targets; eassumption.
@@ -281,7 +286,7 @@ Lemma refused_commit_in_staging : forall c s o f p,
   o_exists o = false -> new_root_ok s (c_root c) (o_rel o) = false ->
   allowed c s o f = true -> In p (targets f) -> stage_target c f p.
 Proof.
-  intros c s o f p HX K NX NR A Hp. unfold allowed in A.
+  intros c s o f p HX K NX NR A Hp. apply allowed_flat_of in A. unfold allowed_flat in A.
   repeat (apply orb_true_iff in A as [A|A]).
   - apply andb_true_iff in A as [_ A]. eapply infra_targets; eassumption.
   - apply andb_true_iff in A as [_ A]. eapply lock_targets; eassumption.
